@@ -8,6 +8,7 @@ import (
 	sdk "github.com/cosmos/cosmos-sdk/types"
 	sdkerrors "github.com/cosmos/cosmos-sdk/types/errors"
 
+	teletypes "github.com/teleport-network/teleport/types"
 	clienttypes "github.com/teleport-network/teleport/x/xibc/core/client/types"
 	"github.com/teleport-network/teleport/x/xibc/core/packet/types"
 	"github.com/teleport-network/teleport/x/xibc/exported"
@@ -54,13 +55,12 @@ func (k Keeper) SendPacket(ctx sdk.Context, packet exported.PacketI) error {
 	if err != nil {
 		return sdkerrors.Wrapf(types.ErrABIPack, "SendPacket error , err: %s", err)
 	}
-	_ = ctx.EventManager().EmitTypedEvent(
-		&types.EventSendPacket{
-			SrcChain: packet.GetSrcChain(),
-			DstChain: packet.GetDstChain(),
-			Sequence: strconv.FormatUint(packet.GetSequence(), 10),
-			Packet:   packetBytes,
-		},
+	_ = teletypes.EmitTypedEvent(ctx, &types.EventSendPacket{
+		SrcChain: packet.GetSrcChain(),
+		DstChain: packet.GetDstChain(),
+		Sequence: strconv.FormatUint(packet.GetSequence(), 10),
+		Packet:   packetBytes,
+	},
 	)
 
 	k.Logger(ctx).Info("packet sent", "packet", fmt.Sprintf("%v : %v : %v", packet.GetSrcChain(), packet.GetDstChain(), packet.GetSequence()))
@@ -122,13 +122,12 @@ func (k Keeper) RecvPacket(ctx sdk.Context, msg *types.MsgRecvPacket) error {
 	// log that a packet has been received & executed
 	k.Logger(ctx).Info("packet received", "packet", fmt.Sprintf("%v", packet))
 
-	_ = ctx.EventManager().EmitTypedEvent(
-		&types.EventRecvPacket{
-			SrcChain: packet.GetSrcChain(),
-			DstChain: packet.GetDstChain(),
-			Sequence: strconv.FormatUint(packet.GetSequence(), 10),
-			Packet:   msg.Packet,
-		},
+	_ = teletypes.EmitTypedEvent(ctx, &types.EventRecvPacket{
+		SrcChain: packet.GetSrcChain(),
+		DstChain: packet.GetDstChain(),
+		Sequence: strconv.FormatUint(packet.GetSequence(), 10),
+		Packet:   msg.Packet,
+	},
 	)
 
 	chainName := k.clientKeeper.GetChainName(ctx)
@@ -138,7 +137,7 @@ func (k Keeper) RecvPacket(ctx sdk.Context, msg *types.MsgRecvPacket) error {
 	if packet.GetDstChain() != chainName && found {
 		k.SetPacketCommitment(ctx, packet.GetSrcChain(), packet.GetDstChain(), packet.GetSequence(), commitment)
 
-		_ = ctx.EventManager().EmitTypedEvent(&types.EventSendPacket{
+		_ = teletypes.EmitTypedEvent(ctx, &types.EventSendPacket{
 			Sequence: fmt.Sprintf("%d", packet.GetSequence()),
 			SrcChain: packet.GetSrcChain(),
 			DstChain: packet.GetDstChain(),
@@ -203,14 +202,13 @@ func (k Keeper) WriteAcknowledgement(
 		return sdkerrors.Wrapf(types.ErrABIPack, "SendPacket error , err: %s", err)
 	}
 
-	_ = ctx.EventManager().EmitTypedEvent(
-		&types.EventWriteAck{
-			SrcChain: packet.GetSrcChain(),
-			DstChain: packet.GetDstChain(),
-			Sequence: strconv.FormatUint(packet.GetSequence(), 10),
-			Packet:   packetBytes,
-			Ack:      acknowledgement,
-		},
+	_ = teletypes.EmitTypedEvent(ctx, &types.EventWriteAck{
+		SrcChain: packet.GetSrcChain(),
+		DstChain: packet.GetDstChain(),
+		Sequence: strconv.FormatUint(packet.GetSequence(), 10),
+		Packet:   packetBytes,
+		Ack:      acknowledgement,
+	},
 	)
 
 	return nil
@@ -286,14 +284,13 @@ func (k Keeper) AcknowledgePacket(
 	// log that a packet has been acknowledged
 	k.Logger(ctx).Info("packet acknowledged", "packet", fmt.Sprintf("%v", packet))
 
-	_ = ctx.EventManager().EmitTypedEvent(
-		&types.EventAcknowledgePacket{
-			SrcChain: packet.GetSrcChain(),
-			DstChain: packet.GetDstChain(),
-			Sequence: strconv.FormatUint(packet.GetSequence(), 10),
-			Packet:   msg.Packet,
-			Ack:      msg.Acknowledgement,
-		},
+	_ = teletypes.EmitTypedEvent(ctx, &types.EventAcknowledgePacket{
+		SrcChain: packet.GetSrcChain(),
+		DstChain: packet.GetDstChain(),
+		Sequence: strconv.FormatUint(packet.GetSequence(), 10),
+		Packet:   msg.Packet,
+		Ack:      msg.Acknowledgement,
+	},
 	)
 
 	if packet.GetSrcChain() != k.clientKeeper.GetChainName(ctx) {
@@ -306,7 +303,7 @@ func (k Keeper) AcknowledgePacket(
 			ackCommitment,
 		)
 
-		_ = ctx.EventManager().EmitTypedEvent(&types.EventWriteAck{
+		_ = teletypes.EmitTypedEvent(ctx, &types.EventWriteAck{
 			Sequence: fmt.Sprintf("%d", packet.GetSequence()),
 			SrcChain: packet.GetSrcChain(),
 			DstChain: packet.GetDstChain(),
